@@ -44,7 +44,22 @@ func RunHistory(d *leandrv.Driver, r *rng.R, idx int, res *report.Result, o RunO
 		return err
 	}
 	disagreed := false
+	// is the history within the hypotheses of the whole-history theorem (Props/History.lean: history_inv)?
+	fresh := true
+	for st := -3; st < 40; st++ {
+		if len(cfg.TimeoutsAt(st)) > 1 {
+			fresh = false
+		}
+	}
 	emit := func(a Action, line string) {
+		if a.Kind == "hctl" || a.Env.Stale != 0 {
+			fresh = false
+		}
+		for _, o := range a.Env.Outcomes {
+			if strings.HasPrefix(o, "n:") {
+				fresh = false
+			}
+		}
 		h.Actions = append(h.Actions, a.Line())
 		if o.Verbose {
 			h.Obs = append(h.Obs, line)
@@ -81,6 +96,26 @@ func RunHistory(d *leandrv.Driver, r *rng.R, idx int, res *report.Result, o RunO
 			res.Count("quiescent")
 		} else {
 			res.Count("drain-bound-hit")
+		}
+	}
+	if !d.Null && !disagreed && runErr == nil {
+		// the model has executed exactly the actions the real code has, with identical observations (every Store included):
+		// evaluate the theorem's statement on the state it reached
+		if ans, err := d.Ask("hist"); err == nil {
+			switch {
+			case ans == "legal" && fresh:
+				res.Count("history-theorem:within-hypotheses:legal")
+			case ans == "legal":
+				res.Count("history-theorem:excluded-feature:legal")
+			case fresh:
+				for _, prop := range []string{"C02", "C03", "C16"} {
+					res.Violate(report.Violation{Property: prop, Oracle: "history-theorem", Signature: "illegal-history-within-hypotheses",
+						Detail: "the model state reached by a history without stale reads, earlier-obtained handles, re-entrant functions or two timeouts on a status has an illegal write history: history_inv says this cannot happen",
+						Replay: History{Index: idx, Cfg: h.Cfg, Actions: append([]string{}, h.Actions...)}})
+				}
+			default:
+				res.Count("history-theorem:excluded-feature:illegal")
+			}
 		}
 	}
 	deadFound := false
